@@ -30,6 +30,8 @@ enum Scenario {
     /// as ClientAbandon with a request of `pad` bytes of padding (megabytes: whatever a client does differently
     /// for large requests -- chunked writes, fragmentation -- is then what gets interrupted)
     ClientAbandonBig { kind: Kind, k: usize, pad: usize, queued: bool },
+    /// AsyncServerWriteTimeout with the large response and / or the following request on `_blocking` routes
+    AsyncServerWriteTimeoutRoutes { k: usize, pipelined: bool, big_blocking: bool, small_blocking: bool },
     /// many concurrent writers (calls, every fourth a notify) with pads cycling over the boundary classes
     ManyWriters { kind: Kind, n: usize, stall: Option<usize> },
     /// blocking Client over TCP with a write timeout and a peer that is not reading: notifies of `fill` pad bytes
@@ -140,6 +142,13 @@ fn scenarios(tier: Tier) -> Vec<Scenario> {
     }
     for pause_ms in [540u64, 400] {
         v.push(Scenario::BlockingServerWriteTimeoutPaced { pause_ms });
+    }
+    for k in [0usize, 47, 48, 51, 4096, cap, 15_000] {
+        for pipelined in [false, true] {
+            for (big_blocking, small_blocking) in [(true, false), (false, true), (true, true)] {
+                v.push(Scenario::AsyncServerWriteTimeoutRoutes { k, pipelined, big_blocking, small_blocking });
+            }
+        }
     }
     // megabyte requests abandoned mid-send (1 MiB + a bit, 3 MiB), the cut around the sizes a client might split at
     for kind in [Kind::Async, Kind::Ws] {
@@ -413,6 +422,10 @@ fn big_router() -> Router {
     Router::new()
         .with_json("/big", |v: Value| Ok(json!({"tag": v, "pad": "y".repeat(20_000)})))
         .with_json("/small", |v: Value| Ok(json!({"tag": v})))
+        // the same two behind the off-reader (`_blocking`) registration: whatever thread a server runs them on,
+        // their responses share the connection with everything else
+        .with_json_blocking("/bigb", |v: Value| Ok(json!({"tag": v, "pad": "y".repeat(20_000)})))
+        .with_json_blocking("/smallb", |v: Value| Ok(json!({"tag": v})))
 }
 
 async fn async_server_conn(write_timeout: Option<Duration>, slot: u16) -> (memstream::Ctl, memstream::End, tokio::task::JoinHandle<()>) {
@@ -432,15 +445,29 @@ fn srv_slot() -> u16 {
 }
 
 async fn async_server_write_timeout(k: usize, pipelined: bool) -> (Bad, u64) {
+    async_server_write_timeout_on(k, pipelined, "/big", "/small").await
+}
+
+async fn async_server_write_timeout_on(k: usize, pipelined: bool, big: &str, small: &str) -> (Bad, u64) {
     let mut bad = Bad::new();
-    let ctx = format!("AsyncServer write_timeout=1s, response stalled after {k} bytes, pipelined={pipelined}");
+    let ctx = format!("AsyncServer write_timeout=1s, response of {big} stalled after {k} bytes, pipelined={pipelined}, next request {small}");
     let (ctl, _client_end, srv) = async_server_conn(Some(Duration::from_secs(1)), srv_slot()).await;
     ctl.a_to_b.set_credit(Some(k));
-    ctl.b_to_a.push(&Frame::request(1, "/big", b"1", FMT_JSON, false).to_bytes());
+    ctl.b_to_a.push(&Frame::request(1, big, b"1", FMT_JSON, false).to_bytes());
     if pipelined {
-        ctl.b_to_a.push(&Frame::request(2, "/small", b"2", FMT_JSON, false).to_bytes());
+        ctl.b_to_a.push(&Frame::request(2, small, b"2", FMT_JSON, false).to_bytes());
     }
     memstream::settle().await;
+    if big != "/big" || small != "/small" {
+        // (handlers that may run on the blocking pool: give them real time to hand their result back)
+        for _ in 0..50 {
+            if ctl.a_to_b.stalls() > 0 {
+                break;
+            }
+            std::thread::sleep(Duration::from_millis(2));
+            memstream::settle().await;
+        }
+    }
     let mut flags = 0;
     if ctl.a_to_b.stalls() > 0 {
         flags |= 16;
@@ -452,9 +479,15 @@ async fn async_server_write_timeout(k: usize, pipelined: bool) -> (Bad, u64) {
     // the peer resumes reading and (if not pipelined) sends another request
     ctl.a_to_b.set_credit(None);
     if !pipelined {
-        ctl.b_to_a.push(&Frame::request(2, "/small", b"2", FMT_JSON, false).to_bytes());
+        ctl.b_to_a.push(&Frame::request(2, small, b"2", FMT_JSON, false).to_bytes());
     }
     memstream::settle().await;
+    if big != "/big" || small != "/small" {
+        for _ in 0..10 {
+            std::thread::sleep(Duration::from_millis(2));
+            memstream::settle().await;
+        }
+    }
     tokio::time::advance(Duration::from_secs(3)).await;
     memstream::settle().await;
     let wire = ctl.a_to_b.take();
@@ -864,6 +897,9 @@ fn run_one(rt: &tokio::runtime::Runtime, sc: &Scenario) -> (Bad, u64) {
         Scenario::ClientWriters { kind, pads, stall } => rt.block_on(client_writers(*kind, pads, *stall)),
         Scenario::ClientAbandon { kind, k, queued } => rt.block_on(client_abandon(*kind, *k, *queued, None, 20_000)),
         Scenario::ClientAbandonThen { kind, k, then } => rt.block_on(client_abandon(*kind, *k, false, Some(*then), 20_000)),
+        Scenario::AsyncServerWriteTimeoutRoutes { k, pipelined, big_blocking, small_blocking } => {
+            rt.block_on(async_server_write_timeout_on(*k, *pipelined, if *big_blocking { "/bigb" } else { "/big" }, if *small_blocking { "/smallb" } else { "/small" }))
+        }
         Scenario::ClientAbandonBig { kind, k, pad, queued } => rt.block_on(client_abandon(*kind, *k, *queued, None, *pad)),
         Scenario::ManyWriters { kind, n, stall } => rt.block_on(many_writers(*kind, *n, *stall)),
         Scenario::AsyncServerWriteTimeout { k, pipelined } => rt.block_on(async_server_write_timeout(*k, *pipelined)),
